@@ -15,6 +15,7 @@ stored      zip members stored instead of deflated
 utf16 / latin1   document encoding of content.xml (latin1 only if every character fits)
 colstyle    <table:table-column> elements in front of the rows
 trailing-empty-run  a final run of empty cells with a repeat count in each row (as LibreOffice does)
+annotations  non-empty cells carry a comment (office:annotation with its own text:p) in front of their text
 
 Whitespace that ODF would collapse (leading/trailing blanks, runs of blanks, tabs, line breaks) is
 always written with the whitespace elements, because a literal would not denote the same text.
@@ -29,7 +30,7 @@ NS = {
     "style": "urn:oasis:names:tc:opendocument:xmlns:style:1.0",
 }
 ALL_FEATURES = ["colruns", "rowruns", "s-single", "s-noc", "paragraphs", "spans", "emptyp", "stored", "utf16",
-                "latin1", "colstyle", "trailing-empty-run"]
+                "latin1", "colstyle", "trailing-empty-run", "annotations"]
 
 
 def _escape(text):
@@ -107,6 +108,10 @@ def _cell_xml(text, features, used, attribute=""):
             body = "<text:p>%s</text:p>" % "<text:line-break/>".join(contents)
     else:
         body = "<text:p>%s</text:p>" % contents[0]
+    if "annotations" in features:
+        used.add("office:annotation")
+        body = ('<office:annotation><dc:date>2020-01-01T00:00:00</dc:date><text:p>a comment</text:p><text:p>'
+                "on two lines</text:p></office:annotation>") + body
     return '<table:table-cell%s office:value-type="string">' % attribute + body + "</table:table-cell>"
 
 
@@ -138,7 +143,8 @@ def content_xml(sheets, features, used=None, repeats=None):
     """content.xml text (str).  ``repeats`` optionally overrides repeat attributes for fault tests."""
     used = used if used is not None else set()
     out = ['<office:document-content xmlns:office="%s" xmlns:table="%s" xmlns:text="%s" xmlns:style="%s" '
-           'office:version="1.2">' % (NS["office"], NS["table"], NS["text"], NS["style"]),
+           'xmlns:dc="http://purl.org/dc/elements/1.1/" office:version="1.2">' % (
+               NS["office"], NS["table"], NS["text"], NS["style"]),
            "<office:body><office:spreadsheet>"]
     for sheet_index, table in enumerate(sheets):
         out.append('<table:table table:name="Sheet%d">' % (sheet_index + 1))
